@@ -181,3 +181,48 @@ func setEmpty(v reflect.Value, n *int, depth int) {
 		}
 	}
 }
+
+// SetTypedNilWrappers puts a typed-nil wrapper pointer, e.g. (*T_Member)(nil),
+// into every oneof field of p (recursively) that is currently nil. protobuf-go
+// reads such a field as "oneof not set", so the message value is unchanged.
+func SetTypedNilWrappers(p proto.Message) int {
+	n := 0
+	typedNil(reflect.ValueOf(p), &n, 0)
+	return n
+}
+
+func typedNil(v reflect.Value, n *int, depth int) {
+	if depth > 6 || v.Kind() != reflect.Ptr || v.IsNil() {
+		return
+	}
+	t := TypeOfGo(v.Type())
+	if t == nil {
+		return
+	}
+	s := v.Elem()
+	st := s.Type()
+	for i := 0; i < st.NumField(); i++ {
+		f := st.Field(i)
+		if f.PkgPath != "" {
+			continue
+		}
+		fv := s.Field(i)
+		switch {
+		case fv.Kind() == reflect.Interface && fv.IsNil():
+			for _, w := range t.MI.OneofWrappers {
+				wt := reflect.TypeOf(w)
+				if wt.Implements(fv.Type()) {
+					fv.Set(reflect.Zero(wt))
+					*n++
+					break
+				}
+			}
+		case isMsgPtr(fv.Type()):
+			typedNil(fv, n, depth+1)
+		case fv.Kind() == reflect.Slice && isMsgPtr(fv.Type().Elem()):
+			for j := 0; j < fv.Len(); j++ {
+				typedNil(fv.Index(j), n, depth+1)
+			}
+		}
+	}
+}
